@@ -73,14 +73,16 @@ func (p *PreemptionContext) tryPreemption() {
 			zap.String("ds allocation key", p.requiredAsk.GetAllocationKey()),
 			zap.String("allocation name", p.requiredAsk.GetAllocationName()),
 			zap.Int("no.of victims", len(victims)))
+		marked := make([]*Allocation, 0, len(victims))
 		for _, victim := range victims {
-			err := victim.MarkPreempted()
+			err := victim.MarkPreemptedOnce()
 			if err != nil {
 				log.Log(log.SchedRequiredNodePreemption).Warn("allocation is already released, so not proceeding further on the daemon set preemption process",
 					zap.String("applicationID", p.requiredAsk.GetApplicationID()),
 					zap.String("allocationKey", victim.GetAllocationKey()))
 				continue
 			}
+			marked = append(marked, victim)
 			if victimQueue := p.application.queue.GetQueueByAppID(victim.GetApplicationID()); victimQueue != nil {
 				victimQueue.IncPreemptingResource(victim.GetAllocatedResource())
 			} else {
@@ -92,7 +94,8 @@ func (p *PreemptionContext) tryPreemption() {
 			victim.SendPreemptedBySchedulerEvent(p.requiredAsk.GetAllocationKey(), p.requiredAsk.GetApplicationID(), p.application.queuePath)
 		}
 		p.requiredAsk.MarkTriggeredPreemption()
-		p.application.notifyRMAllocationReleased(victims, si.TerminationType_PREEMPTED_BY_SCHEDULER,
+		// only the victims this attempt marked are announced: the others are gone or belong to another preemption
+		p.application.notifyRMAllocationReleased(marked, si.TerminationType_PREEMPTED_BY_SCHEDULER,
 			"preempting allocations to free up resources to run daemon set ask: "+p.requiredAsk.GetAllocationKey())
 	} else {
 		p.requiredAsk.LogAllocationFailure(common.NoVictimForRequiredNode, true)
